@@ -1,0 +1,25 @@
+//go:build verif
+
+// Contracts for the verification machinery in /verif (comment-only; compiled only with -tags verif).
+
+package cutter
+
+// ---- C16: a batch never mixes protocol versions; it is the longest same-version prefix ----
+//
+//@ spec queuedNonNil(ops []*operation.QueuedOperationAtTime) bool { forall q int :: 0 <= q && q < len(ops) ==> ops[q] != nil }
+//
+//@ func min
+//@   ensures (i < j ==> result == i) && (i >= j ==> result == j)
+//
+//@ func getOperationsAtProtocolVersion
+//@   requires queuedNonNil(opsAtTime)
+//@   loop 1
+//@     invariant len(ops) == _k
+//@     invariant forall q int :: 0 <= q && q < _k ==> opsAtTime[q].ProtocolVersion == opsAtTime[0].ProtocolVersion
+//@     invariant _k > 0 ==> protocolVersion == opsAtTime[0].ProtocolVersion
+//@     invariant forall q int :: 0 <= q && q < len(ops) ==> ops[q] != nil && ops[q].UniqueSuffix == opsAtTime[q].UniqueSuffix && ops[q].Type == opsAtTime[q].Type && ops[q].OperationRequest == opsAtTime[q].OperationRequest && ops[q].Namespace == opsAtTime[q].Namespace
+//@   ensures len(r0) <= len(opsAtTime)
+//@   ensures forall q int :: 0 <= q && q < len(r0) ==> opsAtTime[q].ProtocolVersion == opsAtTime[0].ProtocolVersion
+//@   ensures len(r0) < len(opsAtTime) ==> opsAtTime[len(r0)].ProtocolVersion != opsAtTime[0].ProtocolVersion
+//@   ensures len(opsAtTime) > 0 ==> len(r0) > 0 && r1 == opsAtTime[0].ProtocolVersion
+//@   ensures forall q int :: 0 <= q && q < len(r0) ==> r0[q] != nil && r0[q].UniqueSuffix == opsAtTime[q].UniqueSuffix && r0[q].Type == opsAtTime[q].Type && r0[q].OperationRequest == opsAtTime[q].OperationRequest && r0[q].Namespace == opsAtTime[q].Namespace
